@@ -246,7 +246,7 @@ func (c *Chain) project(st *list.AclState) *Post {
 		if iv.Type == aclrecordproto.AclInviteType_AnyoneCanJoin {
 			is.Type, is.Perm = "any", permName(iv.Permissions)
 		} else if iv.Type == aclrecordproto.AclInviteType_RequestToJoin {
-			is.Type, is.Perm = "req", "none" // Permissions of a request-to-join invite is never read (abstracted in the model)
+			is.Type, is.Perm = "req", permName(iv.Permissions) // stored as it came, although only anyone-can-join invites use it
 		} else {
 			is.Type, is.Perm = fmt.Sprintf("type%d", int(iv.Type)), permName(iv.Permissions)
 		}
@@ -532,8 +532,12 @@ func (c *Chain) renderContent(author string, ct Content, st *Post, cur crypto.Sy
 		}
 		out.newSlot = true
 		inv := &aclrecordproto.AclAccountInvite{InviteKey: w.invPub[slot], Permissions: permProto[ct.P]}
-		if ct.V == "req" {
+		if ct.V == "req" || ct.V == "reqkey" {
 			inv.InviteType = aclrecordproto.AclInviteType_RequestToJoin
+			if ct.V == "reqkey" { // ill-matched: a request-to-join invite that carries a read key ciphertext
+				inv.EncryptedReadKey = c.encFor(w.inv[slot].GetPublic(), cur)
+				out.keyTo = append(out.keyTo, keyGift{slot, len(out.rot) > 0})
+			}
 		} else {
 			inv.InviteType = aclrecordproto.AclInviteType_AnyoneCanJoin
 			if ct.V == "any" {
